@@ -53,7 +53,7 @@ REF = {
     "TBZ": {"succ": 2, "taken_if_zero": True, "ops": {"And"}, "kindsn": {"Assign", "Load", "Store"}},
     "TBNZ": {"succ": 2, "taken_if_zero": False, "ops": {"And"}, "kindsn": {"Assign", "Load", "Store"}},
     "LDP": dict(LOADZ, nload=2), "LDNP": dict(LOADZ, nload=2),
-    "LDPSW": {"kinds": {"Load"}, "kindsn": {"Store"}, "load": 32, "nload": 2, "ops": {"Sext"}, "Wn": FLAGS},
+    "LDPSW": {"kinds": {"Load"}, "kindsn": {"Store"}, "load": 32, "nload": 2, "ops": {"Sext"}, "Wn": FLAGS, "sext_all": True},
     "STP": dict(STORE, nstore=2), "STNP": dict(STORE, nstore=2),
 }
 for _m in ("LDR", "LDUR", "LDAR", "LDLAR"):
@@ -63,7 +63,7 @@ for _m in ("LDRB", "LDURB", "LDARB", "LDLARB"):
 for _m in ("LDRH", "LDURH", "LDARH", "LDLARH"):
     REF[_m] = dict(LOADZ, load=16, nload=1)
 for _m, _w in (("LDRSB", 8), ("LDURSB", 8), ("LDRSH", 16), ("LDURSH", 16), ("LDRSW", 32), ("LDURSW", 32)):
-    REF[_m] = {"kinds": {"Load"}, "kindsn": {"Store"}, "load": _w, "nload": 1, "ops": {"Sext"}, "Wn": FLAGS}
+    REF[_m] = {"kinds": {"Load"}, "kindsn": {"Store"}, "load": _w, "nload": 1, "ops": {"Sext"}, "Wn": FLAGS, "sext_all": True}
 for _m in ("STR", "STUR", "STLR", "STLLR", "STLUR"):
     REF[_m] = dict(STORE, nstore=1)
 for _m in ("STRB", "STURB", "STLRB", "STLLRB", "STLURB"):
@@ -275,6 +275,12 @@ def r3(db, rep, hb, disp, runs):
             probs.append("must emit %s" % sorted(row["kinds"] - sig["kinds"]))
         if row.get("kindsn", set()) & sig["kinds"]:
             probs.append("must not emit %s" % sorted(row["kindsn"] & sig["kinds"]))
+        if row.get("sext_all"):
+            # every loaded temporary reaches its destination register through a sign extension
+            for o in res.ops:
+                if o.get("via") == "AArch64Register::set" and ilshape.is_il(o["src"]) and reads_temp(o["src"]) and not under_sext(o["src"]):
+                    probs.append("a loaded value is written to its register without sign extension (line %s)" % o["line"])
+                    break
         if row.get("target_reads_operand"):
             reads = set()
             for o in res.ops:
@@ -304,6 +310,29 @@ def r3(db, rep, hb, disp, runs):
         r.decide(not probs, "aarch64|%s" % i, db.where(db.hir[hs[0]]), "%s is lifted by %s: %s" % (i, last_seg(hs[0]), "; ".join(probs)),
                  detail={"handler": hs[0], "assigns": sorted(x for x in sig["W"] if isinstance(x, str)), "ops": sorted(sig["ops"])})
     r.floor(59, "dispatched mnemonics with reference rows")
+
+
+def reads_temp(e):
+    if not ilshape.is_il(e):
+        return False
+    sh_ = e[2]
+    if sh_[0] == "scalar" and sh_[1] == "temp":
+        return True
+    return sh_[0] == "op" and any(reads_temp(a) for a in sh_[2])
+
+
+def under_sext(e):
+    """Every path from the root to a temp leaf passes a Sext."""
+    if not ilshape.is_il(e):
+        return True
+    sh_ = e[2]
+    if sh_[0] == "scalar":
+        return sh_[1] != "temp"
+    if sh_[0] == "op":
+        if sh_[1] == "Sext":
+            return True
+        return all(under_sext(a) for a in sh_[2])
+    return True
 
 
 def r4(db, rep, hb, disp, runs):
@@ -336,6 +365,47 @@ def r4(db, rep, hb, disp, runs):
 
 def short(i):
     return i.replace("a64reg:param1.", "").replace("named:", "")
+
+
+def r3b(db, rep):
+    from mirterm import terms_of, subterms as tsub
+    from db import mir_calls, mir_callee
+    r = rep.rule("R3b", "K9", "TBZ/TBNZ test the bit the instruction names: the 6-bit bit number from the decoder reaches `1 << bit` "
+                 "without being masked below 6 bits or narrowed")
+    fn = "translator::aarch64::semantics::cbz_cbnz_tbz_tbnz"
+    body = db.mir.get(fn)
+    rep.anchor(body is not None, fn)
+    tm = terms_of(db, fn, {})
+    shl = []
+    for i, t in mir_calls(body):
+        if (mir_callee(t) or "") == "il::expr_const":
+            v = tm.operand(t["args"][0])
+            for x in tsub(v):
+                if isinstance(x, tuple) and len(x) == 4 and x[0] == "bin" and x[1] in ("Shl", "ShlUnchecked") and x[2] == ("const", 1):
+                    shl.append((t, x[3]))
+    rep.anchor(len(shl) == 1, "the `1 << bit` constant of cbz_cbnz_tbz_tbnz")
+    t, amt = shl[0]
+    bad = None
+    for x in tsub(amt):
+        if isinstance(x, tuple) and len(x) == 4 and x[0] == "bin" and x[1] == "BitAnd":
+            ks = [y[1] for y in (x[2], x[3]) if isinstance(y, tuple) and y[0] == "const" and isinstance(y[1], int)]
+            if ks and min(ks) < 63:
+                bad = "masked with %#x" % min(ks)
+        if isinstance(x, tuple) and x and x[0] == "cast" and len(x) >= 4 and bits_of_ty(x[2]) and bits_of_ty(x[3]) and bits_of_ty(x[2]) < 8:
+            bad = "narrowed to %s" % x[2]
+        if isinstance(x, tuple) and len(x) == 4 and x[0] == "bin" and x[1] in ("Rem",):
+            ks = [y[1] for y in (x[3],) if isinstance(y, tuple) and y[0] == "const" and isinstance(y[1], int)]
+            if ks and ks[0] < 64:
+                bad = "reduced modulo %d" % ks[0]
+    from_dec = any(isinstance(x, tuple) and x and x[0] == "call" and str(x[1]).endswith("Instruction::operands") for x in tsub(amt))
+    r.decide(bad is None and from_dec, "aarch64|TBZ|bit_index", db.where(body, t.get("l")),
+             "the tested bit number is %s before it is used: bits 32..63 of an X register are tested as bit n-32" % (bad or "not the decoder's operand"))
+
+
+def bits_of_ty(t):
+    import re
+    m = re.fullmatch(r"[iu](8|16|32|64|128)", t or "")
+    return int(m.group(1)) if m else (64 if t in ("usize", "isize") else None)
 
 
 def r9(db, rep, hb, disp):
@@ -433,6 +503,7 @@ def run(db, rep, feat, tier):
     r1(db, rep)
     r2(db, rep, hb, disp)
     r3(db, rep, hb, disp, runs)
+    r3b(db, rep)
     r4(db, rep, hb, disp, runs)
     sub = {k: v for k, v in runs.items() if "translator::aarch64::" in k}
     c05.r2(db, rep, sub, ("aarch64",), "R5")
